@@ -76,7 +76,17 @@ pub fn run_case(env: &Env, ctx: &mut Ctx, idx: u64) {
         hist.push(c);
     }
     // probe: a sensitive probe, a corpus program, or a repetition of an earlier call
-    let probe = match rng.below(10) {
+    let last_raw = hist.iter().rev().find(|c| matches!(c.entry, Entry::RawSv | Entry::RawSvIncomplete | Entry::RawLib | Entry::RawPp)).cloned();
+    let probe = match rng.below(11) {
+        10 if last_raw.is_some() => {
+            // the buffer of the last raw call overwritten in place: same address, same length, other text
+            let l = last_raw.unwrap();
+            ctx.count("probes_editing_the_buffer_in_place", 1);
+            match mutate::same_length_edit(&l.src, &mut rng) {
+                Some(e) => Call { entry: *rng.pick(&[Entry::RawSv, Entry::RawSvIncomplete, Entry::RawLib, Entry::RawPp]), src: e, ..l },
+                None => l,
+            }
+        }
         0..=2 => {
             let s = rng.pick(PROBES).to_string();
             mk(&mut rng, s)
